@@ -157,7 +157,7 @@ pub fn stages(id: &str) -> Vec<Stage> {
             st(C11 { params: Params::huge_package(3000).hint_heavy(), stage: "huge" }, 20, 400, Release),
         ],
         "C12" => vec![
-            st(C12 { params: Params::conflict_heavy().with_soft(2, 100).with_big_unions(150).with_giant_unions(12), stage: "main", max_indices: 48, conflict_free: false }, 1_500, 0, Release),
+            st_n(C12 { params: Params::conflict_heavy().with_soft(2, 100).with_big_unions(150).with_giant_unions(12), stage: "main", max_indices: 48, conflict_free: false }, 30_000, 120_000, Release),
             st(C12 { params: Params::conflict_heavy().with_soft(2, 100), stage: "all-indices", max_indices: 0, conflict_free: false }, 0, 40_000, Release),
             st(C12 { params: Params::wide_root(), stage: "wide-root", max_indices: 64, conflict_free: true }, 3, 60, Release),
         ],
